@@ -240,11 +240,18 @@ pub fn exh_count(alphabet: usize, max_len: usize) -> u64 {
 /// Long line texts: `n` lines drawn from a vocabulary (so lines repeat when the vocabulary is
 /// small), one terminator style per text (sometimes mixed), k scattered line edits.
 pub fn long_text_pair(rng: &mut Rng, n: usize, max_edits: usize) -> (Vec<u8>, Vec<u8>) {
-    let vocab = *rng.pick(&[3usize, 40, 100_000]);
+    // vocabulary 0 = every line distinct
+    let vocab = if n > 60_000 && rng.chance(2, 3) { 0 } else { *rng.pick(&[3usize, 40, 100_000, 0]) };
     let term: &str = *rng.pick(&["\n", "\n", "\r\n", "\r"]);
     let mixed = rng.chance(1, 6);
+    let counter = std::cell::Cell::new(0usize);
     let mk_line = |rng: &mut Rng| -> String {
-        let w = rng.below(vocab);
+        let w = if vocab == 0 {
+            counter.set(counter.get() + 1);
+            counter.get()
+        } else {
+            rng.below(vocab)
+        };
         let t = if mixed { *rng.pick(&["\n", "\r\n", "\r"]) } else { term };
         format!("line {}{}", w, t)
     };
@@ -312,3 +319,47 @@ pub fn distinct_lines_pair(rng: &mut Rng, n: usize, drop: usize, fresh: usize) -
 }
 
 pub const BOUNDARIES: [usize; 8] = [256, 1000, 1024, 2048, 4096, 8192, 32768, 65536];
+
+/// A long, boring text (tens of kilobytes of one terminator style and ASCII words) into which
+/// a few RARE features are injected at late positions: a lone CR, a CRLF, every Unicode blank,
+/// a multi-byte char, an invalid byte (when `invalid`).
+pub fn long_boring_text(rng: &mut Rng, bytes: usize, invalid: bool) -> Vec<u8> {
+    let term: &[u8] = *rng.pick(&[&b"\n"[..], b"\n", b"\r\n", b"\r"]);
+    let mut t: Vec<u8> = Vec::with_capacity(bytes + 64);
+    while t.len() < bytes {
+        let words = 1 + rng.below(8);
+        for w in 0..words {
+            if w > 0 {
+                t.push(b' ');
+            }
+            t.extend_from_slice(rng.pick(&["alpha", "beta", "x", "lorem", "ipsum", "42"]).as_bytes());
+        }
+        t.extend_from_slice(term);
+    }
+    let rare: Vec<&[u8]> = {
+        let mut v: Vec<&[u8]> = vec![b"\r", b"\n", b"\r\n", b"\x0b", b"\x0c", "\u{85}".as_bytes(), "\u{a0}".as_bytes(), "\u{1680}".as_bytes(), "\u{2003}".as_bytes(), "\u{2028}".as_bytes(), "\u{3000}".as_bytes(), "\u{e9}".as_bytes(), "\u{fffd}".as_bytes(), "\u{1f1e9}\u{1f1ea}".as_bytes()];
+        if invalid {
+            v.extend_from_slice(&INVALID);
+        }
+        v
+    };
+    let k = 1 + rng.below(4);
+    for _ in 0..k {
+        // late positions: in the last two thirds
+        let at = t.len() / 3 + rng.below(t.len() - t.len() / 3 + 1);
+        // do not split a CRLF of the base text: insert at a word character
+        let mut at = at.min(t.len());
+        while at > 0 && at < t.len() && !t[at].is_ascii_alphanumeric() {
+            at += 1;
+        }
+        let frag = *rng.pick(&rare);
+        let at = at.min(t.len());
+        t.splice(at..at, frag.iter().copied());
+    }
+    if rng.chance(1, 3) {
+        while matches!(t.last(), Some(b'\n') | Some(b'\r')) {
+            t.pop();
+        }
+    }
+    t
+}
